@@ -150,6 +150,13 @@ def main():
     if case.get("config", {}).get("driver_as_module"):
         # launched like `python -m package.module`: __main__.__spec__ is set
         drv_cmd = [case.get("python", sys.executable), "-m", "lv_driver", casedir]
+    def _default_signals():
+        # a check started in the background of a non-interactive shell inherits SIGINT/SIGQUIT = SIG_IGN: the driver must see
+        # the dispositions of an ordinary foreground program whatever way the check was launched
+        for s_ in (signal.SIGINT, signal.SIGQUIT, signal.SIGTERM, signal.SIGPIPE, signal.SIGCHLD):
+            signal.signal(s_, signal.SIG_DFL)
+        signal.pthread_sigmask(signal.SIG_SETMASK, set())
+
     drv = subprocess.Popen(
         drv_cmd,
         stdin=subprocess.DEVNULL,
@@ -158,6 +165,7 @@ def main():
         env=env,
         cwd=casedir,
         close_fds=True,
+        preexec_fn=_default_signals,
     )
     os.close(out)
     os.close(err)
